@@ -120,7 +120,7 @@ class C05(Profile):
               'explicit_modified_sub_ms', 'sco_locked_refused', 'revoked_refused', 'reserialised_head',
               'none_removed_property', 'chain_len>=5', 'granular_marking_as_version_minter', 'remove_custom_stix',
               'unmodifiable_removal_refused', 'custom_registered_type_chain', 'same_name_registered_as_2.1_observable',
-              'unmodifiable_names_inside_custom_properties']
+              'unmodifiable_names_inside_custom_properties', 'modified_given_as_nothing']
     rule = ('plans are generated from run_seed (1-4 chains over every versionable type of both spec versions in object / '
             'dict / unregistered-dict / SCO forms, 10-60 versioning ops each with a steered clock reading); a run is '
             'non-trivial when >=1 op produced a new version AND >=1 oracle comparison ran on it; distinct = distinct plan digests')
@@ -200,7 +200,7 @@ class C05(Profile):
                 op['sel'] = rng.choice([['type'], ['id'], ['created'], ['type', 'id'], ['labels']])
             elif kind == 'newver_T':
                 op['T_rel'] = rng.choice(T_RELS)
-                op['T_form'] = rng.choice(['str3', 'str6', 'strmin', 'datetime', 'datetime_offset'])
+                op['T_form'] = rng.choice(['str3', 'str6', 'strmin', 'datetime', 'datetime_offset', 'str3', 'str6', 'strmin', 'datetime', 'none', 'empty'])
                 if rng.random() < 0.3:
                     op['changes'] = _changes(rng, ch)
             elif kind == 'illegal':
@@ -431,14 +431,24 @@ class C05(Profile):
             if T % 1000:
                 world.probe('explicit_modified_sub_ms')
             expect = 'ok' if legal else 'refused'
+            if tf in ('none', 'empty'):
+                # `modified` given, but as "nothing": refusing is fine; if it is accepted, the version minted from the clock
+                # must be strictly newer like any other (the clock of this op may read before / at / just after the old value)
+                tv = None if tf == 'none' else []
+                T = None
+                expect = 'either'
+                world.probe('modified_given_as_nothing')
             kwargs = dict(changes, modified=tv)
             has_x = any(k.startswith('x_') for k in changes if changes[k] is not None)
             if is_obj and has_x and not getattr(head, 'has_custom', False):
                 expect = 'refused'
             fn = (lambda: head.new_version(**kwargs)) if (op['via'] == 'method' and is_obj) else (lambda: V.new_version(head, **kwargs))
-            mints_clock = False
+            mints_clock = T is None
             changes = dict(changes)
-            changes['__T__'] = T
+            if T is not None:
+                changes['__T__'] = T
+            else:
+                changes = None       # what becomes of the rest of such a request is not compared
         else:  # illegal
             what = op['what']
             expect = 'refused'
